@@ -89,6 +89,7 @@ type c02State struct {
 	contPending  bool
 	contNoCond   bool // a continue was taken and the loop's per-iteration condition has not been evaluated since
 	contLoop     *ast.RangeStmt // … in the body run by this statement loop
+	contSrc      map[types.Object]bool // the control variable(s) found to hold the continue (tested variable, type-switch binding)
 	breakPending bool
 	breakCond    bool                          // a condition was evaluated inside the break arm (e.g. a level test)
 	breakRoot    ast.Expr                      // the if-condition that established the break arm
@@ -99,7 +100,7 @@ type c02State struct {
 }
 
 func (s *c02State) clone() *c02State {
-	n := &c02State{contPending: s.contPending, contNoCond: s.contNoCond, contLoop: s.contLoop, breakPending: s.breakPending, breakCond: s.breakCond, breakRoot: s.breakRoot, okOf: map[types.Object]string{}, okSrc: map[types.Object]types.Object{}, unchecked: map[types.Object]token.Pos{}, nonNil: map[types.Object]token.Pos{}}
+	n := &c02State{contPending: s.contPending, contNoCond: s.contNoCond, contLoop: s.contLoop, contSrc: s.contSrc, breakPending: s.breakPending, breakCond: s.breakCond, breakRoot: s.breakRoot, okOf: map[types.Object]string{}, okSrc: map[types.Object]types.Object{}, unchecked: map[types.Object]token.Pos{}, nonNil: map[types.Object]token.Pos{}}
 	for k, v := range s.okSrc {
 		n.okSrc[k] = v
 	}
@@ -153,6 +154,14 @@ func c02Run(r *Run) {
 		if fd.Recv == nil && fd.Type.Params != nil && len(fd.Type.Params.List) == 1 && fd.Type.Results != nil && len(fd.Type.Results.List) == 1 {
 			if controlKind(info.TypeOf(fd.Type.Params.List[0].Type)) == "Break" && isControl(info.TypeOf(fd.Type.Results.List[0].Type)) {
 				haveBreakReducer = true
+			}
+		}
+	}
+	haveContReducer := false
+	for _, fd := range funcDecls(npkg) {
+		if fd.Recv == nil && fd.Type.Params != nil && len(fd.Type.Params.List) == 1 && fd.Type.Results != nil && len(fd.Type.Results.List) == 1 {
+			if controlKind(info.TypeOf(fd.Type.Params.List[0].Type)) == "Continue" && isControl(info.TypeOf(fd.Type.Results.List[0].Type)) {
+				haveContReducer = true
 			}
 		}
 	}
@@ -381,6 +390,7 @@ func c02Run(r *Run) {
 			return fresh
 		}
 		tracked := map[types.Object]bool{}
+		contBound := map[types.Object]types.Object{} // ok-variable of `ctrl, ok := c.(Kind)` → ctrl
 		// classification results: `kind, ctl := classify(c)` — testing kind is how ctl is looked at
 		sibling := map[types.Object]types.Object{}
 		ast.Inspect(fd.Body, func(n ast.Node) bool {
@@ -421,6 +431,16 @@ func c02Run(r *Run) {
 			n.contNoCond = x.contNoCond || y.contNoCond
 			if n.contLoop == nil {
 				n.contLoop = y.contLoop
+			}
+			if len(y.contSrc) > 0 {
+				m := map[types.Object]bool{}
+				for k := range x.contSrc {
+					m[k] = true
+				}
+				for k := range y.contSrc {
+					m[k] = true
+				}
+				n.contSrc = m
 			}
 			n.breakPending = x.breakPending && y.breakPending
 			n.breakCond = x.breakCond || y.breakCond
@@ -523,6 +543,11 @@ func c02Run(r *Run) {
 		h.Cond = func(e ast.Expr, truth bool, st State) State {
 			s := st.(*c02State)
 			examine(s, e)
+			if c, ok := ast.Unparen(e).(*ast.CallExpr); ok && !truth && len(c.Args) == 0 {
+				if se, ok := ast.Unparen(c.Fun).(*ast.SelectorExpr); ok && se.Sel.Name == "IsContinue" {
+					s.contPending, s.contNoCond, s.contSrc = false, false, nil // not a continue after all
+				}
+			}
 			if s.contNoCond && mentionsCondField(e) {
 				s.contNoCond = false // `if u.Condition != nil { … }`: a loop without a condition has none to re-test
 			}
@@ -535,6 +560,15 @@ func c02Run(r *Run) {
 				if kind, ok := s.okOf[info.Uses[x]]; ok && truth {
 					curStmtLoop = stmtLoopAt(e.Pos())
 					setKind(s, kind, rootOf[e])
+					if kind == "Continue" {
+						s.contSrc = map[types.Object]bool{}
+						if src := s.okSrc[info.Uses[x]]; src != nil {
+							s.contSrc[src] = true
+						}
+						if v := contBound[info.Uses[x]]; v != nil {
+							s.contSrc[v] = true
+						}
+					}
 				}
 				if src, ok := s.okSrc[info.Uses[x]]; ok && truth {
 					// where the assertion holds, this kind of control is dealt with by the arm
@@ -575,6 +609,17 @@ func c02Run(r *Run) {
 				if tv, ok := info.Types[t]; ok && tv.IsType() {
 					curStmtLoop = stmtLoopAt(cc.Pos())
 					setKind(s, controlKind(tv.Type), nil)
+					if controlKind(tv.Type) == "Continue" {
+						s.contSrc = map[types.Object]bool{}
+						if x != nil {
+							if o := objOf(x); o != nil {
+								s.contSrc[o] = true
+							}
+						}
+						if o := info.Implicits[cc]; o != nil {
+							s.contSrc[o] = true
+						}
+					}
 				}
 			}
 			return s
@@ -641,6 +686,9 @@ func c02Run(r *Run) {
 							}
 							if src := objOf(ta.X); src != nil {
 								s.okSrc[o] = src
+							}
+							if b := objOf(x.Lhs[0]); b != nil {
+								contBound[o] = b
 							}
 						}
 					}
@@ -727,6 +775,23 @@ func c02Run(r *Run) {
 				}
 			}
 			atExit(s, rs.Pos())
+			// OWN: a continue the loop has recognised leaves it reduced by one level (or not at all): handing
+			// back the very control that was tested makes `continue 2` continue one loop too far
+			if s.contPending && len(s.contSrc) > 0 && haveContReducer && ctlIdx >= 0 && ctlIdx < len(rs.Results) && len(rs.Results) == nResults && len(stmtLoops) > 0 {
+				last := rs.Results[ctlIdx]
+				handsBack := false
+				if c, ok := ast.Unparen(last).(*ast.CallExpr); !ok || !reducer(c) {
+					ast.Inspect(last, func(n ast.Node) bool {
+						if id, ok := n.(*ast.Ident); ok && s.contSrc[info.Uses[id]] {
+							handsBack = true
+						}
+						return true
+					})
+				}
+				if handsBack {
+					rec("C02-OWN", "consumes:continue", rs.Pos(), false, "a control this loop has recognised as a continue is handed back as it is ("+exprStr(last)+"): its level is not reduced, so `continue 2` continues one loop too far")
+				}
+			}
 			// OWN: on the break arm the control handed back must be nil
 			if s.breakPending && ctlIdx >= 0 && ctlIdx < len(rs.Results) && len(rs.Results) == nResults {
 				last := rs.Results[ctlIdx]
